@@ -99,6 +99,8 @@ let functions : (string * (val0 -> val0)) list = [
   ("cmd", cmd_run);
   ("evm", evm_run);
   ("genesis", genesis_run);
+  ("det", det_run);
+  ("detoracle", oracle_run);
   ("votesgen", votesgen_run);
   ("oraclegen", oraclegen_run);
   ("reggen", reggen_run);
